@@ -8,6 +8,9 @@ pub mod sql;
 pub mod rangemap;
 pub mod collections;
 pub mod task;
+pub mod chan;
+pub mod time;
+pub mod eyre;
 
 /// nondeterministic value: `kani::any()` under Kani, supplied by a native oracle otherwise
 #[cfg(kani)]
